@@ -25,7 +25,7 @@ TURN_CFGS = {
         ("idle", dict(Transports='{"udp"}', Lifetimes="{10}", MaxRefresh=0, MaxDrops=0,
                       Reacts='{"ok", "e401"}', RefreshFaults=0), None),
         ("sim", dict(Transports='{"udp", "tcp"}', Lifetimes="{600}", MaxRefresh=3, MaxDrops=1,
-                     Reacts='{"ok", "e401", "e438", "e438r", "err", "drop", "badtx"}', RefreshFaults=3), (120, 8)),
+                     Reacts='{"ok", "e401", "e438", "e438r", "err", "drop", "badtx"}', RefreshFaults=3), (40, 8)),
     ],
     "thorough": [
         ("core", dict(Transports='{"udp", "tcp"}', Lifetimes="{600}", MaxRefresh=1, MaxDrops=0,
@@ -140,7 +140,7 @@ def turn_part(ck, tier, findings, nonconf):
 
 def run(tier):
     ck = vlib.Check(PID, tier)
-    vlib.build_harness(["turnclient"])
+    vlib.build_harness(["turnclient", "icetimers"])
     findings, nonconf = {}, []
     total = turn_part(ck, tier, findings, nonconf)
     try:
@@ -150,8 +150,12 @@ def run(tier):
         pass
     # everything here is beyond the listed properties: DRIFT only
     for fl, e in sorted(findings.items()):
-        rec = {"finding": fl, "what": FLAG_TEXT.get(fl, ""), "behaviours": e["count"],
-               "witness": [(s["op"], s.get("reacts"), s.get("out")) for s in e["witness"]["steps"]] if "steps" in e["witness"] else e["witness"]}
+        wit = e["witness"]
+        if "tr" in wit:
+            short = {"tr": wit["tr"], "steps": [(s["op"], s.get("reacts"), s.get("out")) for s in wit["steps"]]}
+        else:
+            short = wit
+        rec = {"finding": fl, "what": FLAG_TEXT.get(fl, ""), "behaviours": e["count"], "witness": short}
         print(f"DRIFT: property={PID} (finding on the real code, beyond the listed properties) {json.dumps(rec)[:700]}")
         ck.notes.append({"finding": rec, "full_witness": e["witness"]})
     for d in nonconf[:8]:
